@@ -57,7 +57,7 @@ pub fn base64_decode_utf8(input: impl AsRef<[u8]>) -> Result<String, base64::Dec
     let bytes = STANDARD.decode(input)?;
     String::from_utf8(bytes).map_err(|e| {
         let pos = e.utf8_error().valid_up_to();
-        base64::DecodeError::InvalidByte(pos, e.as_bytes()[pos + 1])
+        base64::DecodeError::InvalidByte(pos, e.as_bytes()[pos])
     })
 }
 #[inline]
